@@ -19,6 +19,7 @@ const pkgPGPatcher = "pkg/podgroupcontroller/controllers/patcher"
 const pkgQueueRes = "pkg/queuecontroller/controllers/resource_updater"
 
 func runC20(c *Ctx) {
+	runC20Preemptibility(c)
 	p, fx := c.P, c.Fx
 	// ---- O1: the recomputed status fields are assigned on every path
 	if gs := c.Anchor("O1", pkgPGPatcher, "", "getStatusWithMetadata"); gs != nil {
@@ -593,4 +594,62 @@ func valueMayOnlyComeFrom(v ssa.Value, callee string, depth int) bool {
 		}
 	}
 	return false
+}
+
+// runC20Preemptibility (O10): the preemptibility that selects AllocatedNonPreemptible is derived from the pod
+// group's priority the way the scheduler derives it: the named class, else the cluster's global-default class,
+// and only when neither exists the built-in default. The built-in default must not be returned on a path that
+// did not look for the global-default class.
+func runC20Preemptibility(c *Ctx) {
+	p, fx := c.P, c.Fx
+	const pk = "pkg/podgroupcontroller/utilities/pod-group"
+	fn := c.Anchor("O10", pk, "", "getPodGroupPriority")
+	if fn == nil {
+		return
+	}
+	global := p.Func(pk, "", "getGlobalDefaultPriorityClass")
+	specific := p.Func(pk, "", "getSpecificPriorityClass")
+	def, okDef := p.ConstInt("pkg/common/constants", "DefaultPodGroupPriority")
+	n := 0
+	for _, b := range fn.Blocks {
+		ret, ok := b.Instrs[len(b.Instrs)-1].(*ssa.Return)
+		if !ok || len(ret.Results) != 2 {
+			continue
+		}
+		k, isC := ret.Results[0].(*ssa.Const)
+		if !isC || k.Value == nil || !okDef || k.Value.ExactString() != fmt.Sprint(def) {
+			continue
+		}
+		if !termOf(ret.Results[1]).isNilConst() {
+			continue
+		}
+		n++
+		okAll := true
+		for _, fs := range fx.pathFactsTo(b, 3) {
+			_, g := hasFact(fs, func(f Fact) bool {
+				return factNilTerm(f, false, func(t *Term) bool { return t.Op == "extract" && t.Name == "1" && t.Args[0].isCallTo(global) })
+			})
+			_, s := hasFact(fs, func(f Fact) bool {
+				return factNilTerm(f, false, func(t *Term) bool { return t.Op == "extract" && t.Name == "1" && t.Args[0].isCallTo(specific) })
+			})
+			if !g || !s {
+				okAll = false
+			}
+		}
+		c.Check(okAll, "O10", "RET", funcKey(fn)+": the built-in default priority only after the named class and the global-default class were not found", ret.Pos(), "both lookups failed on every path to this return", "the built-in default priority can be returned without consulting the cluster's global-default PriorityClass (e.g. for an empty class name): a pod group that the scheduler treats as non-preemptible is reported with an empty allocatedNonPreemptible, and every ancestor queue sums the wrong value")
+	}
+	c.Floor("O10", "RET default-priority returns", n, 1)
+	if ip := c.Anchor("O10", pk, "", "IsPreemptible"); ip != nil {
+		calc := 0
+		for _, in := range instrsIn(ip, func(in ssa.Instruction) bool {
+			cc, ok := in.(ssa.CallInstruction)
+			return ok && calleeOf(cc) != nil && calleeOf(cc).Name() == "CalculatePreemptibility"
+		}) {
+			calc++
+			args := in.(ssa.CallInstruction).Common().Args
+			okA := len(args) == 2 && strings.HasSuffix(termOf(args[0]).String(), ".Spec.Preemptibility") && termOf(args[1]).contains(func(x *Term) bool { return x.isCallTo(fn) })
+			c.Check(okA, "O10", "PROV", funcKey(ip)+": preemptibility = CalculatePreemptibility(spec.preemptibility, resolved priority)", instrPos(in), "the shared rule of the scheduler", "the status controller derives preemptibility from other inputs than the scheduler does")
+		}
+		c.Floor("O10", "PROV preemptibility computations", calc, 1)
+	}
 }
